@@ -1,6 +1,12 @@
 #!/bin/sh
-# regenerate the Makefile from the files on disk and build everything (full .vo)
+# Regenerate the Makefile from the files on disk and build (full .vo, never
+# -vos).  With no argument: the extraction and every property file (and hence
+# everything they depend on), continuing past failures so that one broken
+# proof does not hide the others.
 cd "$(dirname "$0")"
 { cat _CoqProject.head; find Base Model Spec Proofs Generated Properties Run -name '*.v' | sort; } > _CoqProject
 coq_makefile -f _CoqProject -o Makefile.coq >/dev/null
+if [ $# -eq 0 ]; then
+  set -- -k Run/Extract.vo $(find Proofs -name 'Params*.v' | sed 's/\.v$/.vo/') $(find Properties -name 'C*.v' | sort | sed 's/\.v$/.vo/')
+fi
 exec timeout ${COQ_TIMEOUT:-3000} make -f Makefile.coq -j16 "$@"
